@@ -125,7 +125,8 @@ def bool_(x):
 def int_(x):
     try:
         return int(x)
-    except (ValueError, TypeError):
+    except (ValueError, TypeError, OverflowError):
+        # OverflowError is raised when converting an infinite Decimal.
         return None
 
 
